@@ -22,9 +22,12 @@ if REPO != '/repo':
     BUILD = os.path.join(VERIF, 'build', 'alt_' + _tag)
     _h = os.path.join(BUILD, 'harness')
     os.makedirs(_h, exist_ok=True)
-    subprocess.run(['rsync', '-a', '--delete', '--exclude', 'target', '--exclude', 'Cargo.lock', HARNESS + '/', _h + '/'], check=True)
+    subprocess.run(['rsync', '-a', '--delete', '--exclude', 'target', '--exclude', 'Cargo.lock', '--exclude', '/Cargo.toml',
+                    HARNESS + '/', _h + '/'], check=True)
     _ct = open(os.path.join(HARNESS, 'Cargo.toml')).read().replace('path = "/repo"', f'path = "{REPO}"')
-    open(os.path.join(_h, 'Cargo.toml'), 'w').write(_ct)
+    _cp = os.path.join(_h, 'Cargo.toml')
+    if not os.path.exists(_cp) or open(_cp).read() != _ct:   # keep its mtime when unchanged (staleness test below)
+        open(_cp, 'w').write(_ct)
     if not os.path.exists(os.path.join(_h, 'Cargo.lock')):
         subprocess.run(['cp', os.path.join(REPO, 'Cargo.lock'), os.path.join(_h, 'Cargo.lock')])
     HARNESS = _h
@@ -83,6 +86,16 @@ def scan_harnesses():
                     h['nounwindassert'] = True
                 elif key == 'witness':
                     h['witness'] = val
+                elif key == 'modes':
+                    # interpretations to try, in order (default: the declared one; U escalates to B then R)
+                    h['modes'] = val.split()
+                elif key == 'fallback':
+                    # harnesses (of any tier) to decide when this sufficient-condition obligation comes back sat
+                    h['fallback'] = val.split()
+                elif key == 'sufficient':
+                    # the obligation is a sufficient condition for the property, not a necessary one: `unsat`
+                    # decides the clause, a reproduced `sat` is reported as undecided, never as a violation
+                    h['sufficient'] = True
                 elif key == 'assume':
                     h['assumes'].append(val)
     return hs
